@@ -631,6 +631,7 @@ func wUnlocked(h int, plan *vfCliPlan, assign [][]string, sends []vfSendRec, cal
 func TestVerifC10Mux(t *testing.T) {
 	rep := verifkit.Begin("C10", "mux", "histories of runClient(runInProcess(hostile client)): 1-4 concurrent senders share 2-12 uniquely named requests (optionally one name sent twice), closeSend racing with senders; client script per request {answer, defer+reorder, never}, failure {none, exit 0/1 after j reads, garbage, garbage and then keeps consuming stdin, closes stdout and keeps consuming stdin, oversize prefix, frame cut after every byte offset, unknown name, duplicate answer, stops reading stdin, answers before the request is fully read then closes stdin}, 0-2 ms delays inside stdin reads and before answers; every answer carries a unique token; distinct = histories with a request in flight when the failure struck, by (failure, reads, delivered, per-request outcome) signature")
 	defer rep.Write()
+	vfStartIdleScenario() // runs for ~22 s in the background; judged by TestVerifC10ZIdle
 	n := verifkit.Scale(1500, 40000)
 	var wg sync.WaitGroup
 	sem := make(chan struct{}, 24)
@@ -927,4 +928,315 @@ func TestVerifC10OSProcess(t *testing.T) {
 	}
 	rep.Sample(map[string]any{"script": "head -c 2 >/dev/null; exit 0", "requests": 2, "expect": "both sends either refused or answered with an error exactly once; wait returns"})
 	rep.RequireMin("os:read-2-bytes-then-exit", 2)
+}
+
+// TestVerifC10Resend: a test name may be handed to the same client process
+// again once its earlier use has completed (re-runs, the same name in a later
+// batch): each use is answered on its own.
+func TestVerifC10Resend(t *testing.T) {
+	rep := verifkit.Begin("C10", "resend", "healthy in-process client that answers every request with a fresh token; histories of 6-30 sends over 2-4 names from 1-3 senders, a name being re-sent only after its previous use completed (waits for the callback), other names in flight meanwhile; oracle: every send accepted, k-th use of a name gets the client's k-th answer for it, exactly one callback per use, the client is still running, waitForResponses returns nil; distinct = history")
+	defer rep.Write()
+	n := verifkit.Scale(150, 4000)
+	for h := 0; h < n; h++ {
+		rng := verifkit.Stream("c10resend", h)
+		var cmu sync.Mutex
+		answers := map[string][]string{}
+		impl := func(ctx context.Context, _ []string, in io.ReadCloser, out, _ io.WriteCloser) error {
+			// an aborted process dies: its blocked reads and writes end (an OS process would be signalled)
+			dead := make(chan struct{})
+			defer close(dead)
+			go func() {
+				select {
+				case <-ctx.Done():
+					_ = in.Close()
+					_ = out.Close()
+				case <-dead:
+				}
+			}()
+			seq := 0
+			for {
+				var pre [4]byte
+				if _, err := io.ReadFull(in, pre[:]); err != nil {
+					return nil
+				}
+				buf := make([]byte, binary.BigEndian.Uint32(pre[:]))
+				if _, err := io.ReadFull(in, buf); err != nil {
+					return nil
+				}
+				req := &conformancev1.ClientCompatRequest{}
+				if err := proto.Unmarshal(buf, req); err != nil {
+					return err
+				}
+				seq++
+				tok := fmt.Sprintf("answer-%d-for-%s", seq, req.TestName)
+				cmu.Lock()
+				answers[req.TestName] = append(answers[req.TestName], tok)
+				cmu.Unlock()
+				if _, err := out.Write(vfFrameResp(req.TestName, tok)); err != nil {
+					return nil
+				}
+			}
+		}
+		ctx, cancel := context.WithCancel(context.Background())
+		runner, err := runClient(ctx, runInProcess([]string{"healthy-client"}, impl))
+		if err != nil {
+			cancel()
+			rep.Inconcl("runClient: " + err.Error())
+			continue
+		}
+		nNames := 2 + rng.Intn(3)
+		nSenders := 1 + rng.Intn(3)
+		type use struct {
+			Name string
+			K    int
+			Err  string
+			Tok  string
+			CBs  int
+		}
+		var mu sync.Mutex
+		var uses []*use
+		var wg sync.WaitGroup
+		// each sender owns its names (so that "re-sent only after completion" is under its control)
+		for s := 0; s < nSenders; s++ {
+			wg.Add(1)
+			cnt := 2 + rng.Intn(9)
+			seed := rng.Intn(1 << 30)
+			go func(s, cnt, seed int) {
+				defer wg.Done()
+				lr := verifkit.Stream("c10resend-sender", h, s, seed)
+				kOf := map[string]int{}
+				for i := 0; i < cnt; i++ {
+					name := fmt.Sprintf("Resend/%d/sender%d/name%d", h, s, lr.Intn(nNames))
+					kOf[name]++
+					u := &use{Name: name, K: kOf[name]}
+					mu.Lock()
+					uses = append(uses, u)
+					mu.Unlock()
+					done := make(chan struct{})
+					var once sync.Once
+					err := runner.sendRequest(&conformancev1.ClientCompatRequest{TestName: name}, func(_ string, resp *conformancev1.ClientCompatResponse, err error) {
+						mu.Lock()
+						u.CBs++
+						if err != nil {
+							u.Err = "callback error: " + err.Error()
+						} else {
+							u.Tok = resp.GetError().GetMessage()
+						}
+						mu.Unlock()
+						once.Do(func() { close(done) })
+					})
+					if err != nil {
+						mu.Lock()
+						u.Err = "send refused: " + err.Error()
+						mu.Unlock()
+						continue
+					}
+					select {
+					case <-done:
+					case <-time.After(30 * time.Second):
+						mu.Lock()
+						u.Err = "no callback within 30 s"
+						mu.Unlock()
+						return
+					}
+				}
+			}(s, cnt, seed)
+		}
+		wg.Wait()
+		running := runner.isRunning()
+		runner.closeSend()
+		werr := runner.waitForResponses()
+		runner.stop()
+		cancel()
+		rep.Eval(1)
+		mu.Lock()
+		cmu.Lock()
+		var hist []string
+		for _, u := range uses {
+			hist = append(hist, fmt.Sprintf("%s#%d", u.Name[strings.LastIndex(u.Name, "/sender"):], u.K))
+		}
+		rep.DistinctKey(hist)
+		w := map[string]any{"history": hist, "wait_error": fmt.Sprint(werr), "running_before_close": running}
+		for _, u := range uses {
+			want := ""
+			if u.K <= len(answers[u.Name]) {
+				want = answers[u.Name][u.K-1]
+			}
+			if u.Err != "" || u.CBs != 1 || u.Tok != want || want == "" {
+				w["use"] = fmt.Sprintf("%+v", *u)
+				w["client_answers_for_name"] = answers[u.Name]
+				rep.Violation("mux/resend/use-not-answered-on-its-own", fmt.Sprintf("use #%d of %q: callbacks=%d token=%q err=%q; the client's answer to that use was %q", u.K, u.Name, u.CBs, u.Tok, u.Err, want), w)
+				break
+			}
+			rep.Count("resend_uses_ok", 1)
+			if u.K > 1 {
+				rep.Count("resend_repeated_uses_ok", 1)
+			}
+		}
+		if !running || werr != nil {
+			rep.Violation("mux/resend/healthy-client-failed", fmt.Sprintf("the client answered everything correctly but isRunning=%v before close and waitForResponses=%v", running, werr), w)
+		}
+		cmu.Unlock()
+		mu.Unlock()
+	}
+	rep.Sample(map[string]any{"history": []string{"X#1", "Y#1", "X#2"}, "expect": "X#2 gets the client's second answer for X"})
+	rep.RequireMin("resend_repeated_uses_ok", 100)
+}
+
+
+// ---- a quiet spell longer than the runner's read timeout ----
+
+type vfIdleResult struct {
+	firstTok, firstErr   string
+	secondSendErr        string
+	secondTok, secondErr string
+	secondCBs            int
+	clientAnswers        []string
+	quiet                time.Duration
+	done                 bool
+}
+
+var (
+	vfIdleOnce sync.Once
+	vfIdleCh   = make(chan *vfIdleResult, 1)
+)
+
+// vfStartIdleScenario: healthy client; request A answered; nothing happens for
+// longer than the 20 s read timeout; request B.
+func vfStartIdleScenario() {
+	vfIdleOnce.Do(func() {
+		go func() {
+			res := &vfIdleResult{}
+			defer func() { vfIdleCh <- res }()
+			var cmu sync.Mutex
+			impl := func(ctx context.Context, _ []string, in io.ReadCloser, out, _ io.WriteCloser) error {
+				dead := make(chan struct{})
+				defer close(dead)
+				go func() {
+					select {
+					case <-ctx.Done():
+						_ = in.Close()
+						_ = out.Close()
+					case <-dead:
+					}
+				}()
+				for {
+					var pre [4]byte
+					if _, err := io.ReadFull(in, pre[:]); err != nil {
+						return nil
+					}
+					buf := make([]byte, binary.BigEndian.Uint32(pre[:]))
+					if _, err := io.ReadFull(in, buf); err != nil {
+						return nil
+					}
+					req := &conformancev1.ClientCompatRequest{}
+					if proto.Unmarshal(buf, req) != nil {
+						return nil
+					}
+					tok := "answer-for-" + req.TestName
+					if _, err := out.Write(vfFrameResp(req.TestName, tok)); err != nil {
+						return nil
+					}
+					cmu.Lock()
+					res.clientAnswers = append(res.clientAnswers, tok)
+					cmu.Unlock()
+				}
+			}
+			ctx, cancel := context.WithCancel(context.Background())
+			defer cancel()
+			runner, err := runClient(ctx, runInProcess([]string{"quiet-client"}, impl))
+			if err != nil {
+				return
+			}
+			first := make(chan struct{})
+			_ = runner.sendRequest(&conformancev1.ClientCompatRequest{TestName: "Idle/first"}, func(_ string, resp *conformancev1.ClientCompatResponse, err error) {
+				if err != nil {
+					res.firstErr = err.Error()
+				} else {
+					res.firstTok = resp.GetError().GetMessage()
+				}
+				close(first)
+			})
+			select {
+			case <-first:
+			case <-time.After(15 * time.Second):
+				res.firstErr = "no callback"
+				return
+			}
+			start := time.Now()
+			time.Sleep(21500 * time.Millisecond)
+			res.quiet = time.Since(start)
+			second := make(chan struct{}, 4)
+			var smu sync.Mutex
+			err = runner.sendRequest(&conformancev1.ClientCompatRequest{TestName: "Idle/second"}, func(_ string, resp *conformancev1.ClientCompatResponse, err error) {
+				smu.Lock()
+				res.secondCBs++
+				if err != nil {
+					res.secondErr = err.Error()
+				} else {
+					res.secondTok = resp.GetError().GetMessage()
+				}
+				smu.Unlock()
+				second <- struct{}{}
+			})
+			if err != nil {
+				res.secondSendErr = err.Error()
+			} else {
+				select {
+				case <-second:
+				case <-time.After(30 * time.Second):
+					smu.Lock()
+					res.secondErr = "no callback within 30 s"
+					smu.Unlock()
+				}
+			}
+			runner.closeSend()
+			_ = runner.waitForResponses()
+			runner.stop()
+			cmu.Lock()
+			res.done = true
+			cmu.Unlock()
+		}()
+	})
+}
+
+// TestVerifC10ZIdle judges the scenario started at the beginning of the package's C10 tests.
+func TestVerifC10ZIdle(t *testing.T) {
+	rep := verifkit.Begin("C10", "idle", "healthy in-process client: request A is answered, then nothing is sent for 21.5 s (longer than the runner's 20 s read timeout), then request B; oracle: B is either refused at send time (the runner gave the client up) or, if it was accepted and the client answered it, its callback carries exactly that answer - never an error for a request the client answered correctly; distinct = outcome")
+	defer rep.Write()
+	vfStartIdleScenario()
+	var res *vfIdleResult
+	select {
+	case res = <-vfIdleCh:
+	case <-time.After(90 * time.Second):
+		rep.Violation("mux/idle/not-terminating", "the idle scenario did not finish within 90 s", nil)
+		return
+	}
+	rep.Eval(1)
+	w := map[string]any{"first": res.firstTok + res.firstErr, "quiet_ms": res.quiet.Milliseconds(), "second_send_error": res.secondSendErr, "second_callbacks": res.secondCBs, "second_token": res.secondTok, "second_callback_error": res.secondErr, "client_answered": res.clientAnswers}
+	if res.firstTok != "answer-for-Idle/first" {
+		rep.Inconcl(fmt.Sprintf("idle scenario: the first request was not answered (%v)", w))
+		return
+	}
+	answeredSecond := false
+	for _, a := range res.clientAnswers {
+		answeredSecond = answeredSecond || a == "answer-for-Idle/second"
+	}
+	switch {
+	case res.secondSendErr != "":
+		rep.DistinctKey("refused-after-quiet-spell")
+		rep.Count("idle_second_refused", 1)
+		if res.secondCBs != 0 {
+			rep.Violation("mux/idle/callback-after-refused-send", "the send after the quiet spell was refused but its callback fired", w)
+		}
+	case res.secondCBs != 1:
+		rep.Violation(fmt.Sprintf("mux/idle/callback-count/%d", res.secondCBs), "the request sent after the quiet spell was accepted but its callback did not fire exactly once", w)
+	case answeredSecond && res.secondTok != "answer-for-Idle/second":
+		rep.Violation("mux/idle/answered-request-reported-as-error", fmt.Sprintf("the client answered the request sent after a %v quiet spell correctly, but the callback got token %q / error %q", res.quiet.Round(time.Second), res.secondTok, res.secondErr), w)
+	default:
+		rep.DistinctKey("accepted-and-answered")
+		rep.Count("idle_second_answered", 1)
+	}
+	rep.Note("after a %v quiet spell: send error %q, callbacks %d, token %q, callback error %q", res.quiet.Round(100*time.Millisecond), res.secondSendErr, res.secondCBs, res.secondTok, res.secondErr)
+	rep.Sample(map[string]any{"history": "A answered; 21.5 s of silence; B", "expect": "B refused, or B answered with the client's own answer"})
 }
